@@ -52,9 +52,10 @@ def vocab():
 
 
 _ARGS = {}
-ARG_A = ['{}', '{}', '{x}', '{a b}', '{ }', 'x', '{\\foo}', '{%\n}', ' {}', '{german}', '{1}', '{x=y}', '', '{{}}',
+ARG_A = ['{}', '{}', '{x}', '{a=}{,b}', '{name=n,description=}{x}', '{k={v}', '{a b}', '{ }', 'x', '{\\foo}', '{%\n}', ' {}', '{german}', '{1}', '{x=y}', '', '{{}}',
          '{\\x}', '{$}', '{#1}']
-ARG_O = ['', '', '[]', '[x]', '[ ]', '[1]', '[german]', '[a=b,c]', '[{]}]', '[', '[\\foo]']
+ARG_O = ['', '', '[]', '[x]', '[ ]', '[1]', '[german]', '[a=b,c]', '[{]}]', '[', '[\\foo]', '[a=}{]', '[a={b},c=}{d]',
+         '[a=}]', '[=]', '[,=,]', '[a={}]']
 
 
 def with_args(rnd, item):
